@@ -818,6 +818,9 @@ HCALLS = {
     "material.attenuation(arr)": ("Material(V)", lambda h: h.attenuation_coefficient(
         _mod("scipp").scalar(2.5, unit="angstrom"))),
     "cif.save": ("CIF(", lambda h: _cif_save(h)),
+    "cif.save_cif(comment)": ("CIF(", lambda h: _cif_save_wrapper(h, "one-off comment")),
+    "cif.save_cif()": ("CIF(", lambda h: _cif_save_wrapper(h, "")),
+    "block.save_cif": ("cif.Block", lambda h: _cif_save_wrapper(h, "blk")),
     "block.write": ("cif.Block", lambda h: _block_write(h)),
     "frames.bounds": ("frames", lambda h: h.bounds() if hasattr(h, "bounds") else h[0].bounds()),
     "graph.use": ("graph.beamline.beamline(True)", lambda h: _use_graph(h)),
@@ -868,6 +871,14 @@ def _canon_cif_text(text):
 def _cif_save(h):
     s = io.StringIO()
     h.save(s)
+    return _canon_cif_text(s.getvalue())
+
+
+def _cif_save_wrapper(h, comment):
+    from scippneutron.io import cif
+
+    s = io.StringIO()
+    cif.save_cif(s, h, comment=comment)
     return _canon_cif_text(s.getvalue())
 
 
@@ -1054,7 +1065,44 @@ def _reentrancy_cases():
     return _REENTRY
 
 
+_WATCH = []
+WATCH_RUNS = 8
+WATCH_ORDINALS = (0, 1, 2, 3, 5, 8, 13, 21, 34, 55, 89, 144, 233, 377, 610, 987)
+
+
+def _watch_cases():
+    """Mid-call sweep: for every method call (HCALLS) and combinator (DERIVES) on every kind of
+    handed-out object, the object the call is made on is observed at 16 points in the middle of
+    the call (a second caller looking at the shared object): it must look as before the call.
+    The op run at those points is an unrelated lookup; the comparison is the handle watch."""
+    if _WATCH:
+        return _WATCH
+    j = 0
+    for table, kind in ((HCALLS, "hcall"), (DERIVES, "derive")):
+        for key in sorted(table):
+            roots = [f for f in sorted(FACTORIES) if _applicable({key: table[key]}, f)]
+            for f in roots[:2]:
+                j += 1
+                base = 100000 + 10 * j
+                host = ({"k": "hcall", "h": base + 1, "m": key} if kind == "hcall"
+                        else {"k": "derive", "h": base + 2, "src": base + 1, "f": key})
+                host["c"] = 0
+                host["preempt"] = [{"at": at, "op": {"k": "obtain", "h": base + 3 + n, "f": "reference_wavelength", "c": 1}}
+                                   for n, at in enumerate(WATCH_ORDINALS[:6])]
+                # 16 ordinals need 16 distinct nested handles: keep ids unique
+                host["preempt"] = [{"at": at, "op": {"k": "obtain", "h": base * 100 + n, "f": "reference_wavelength", "c": 1}}
+                                   for n, at in enumerate(WATCH_ORDINALS)]
+                _WATCH.append([{"k": "obtain", "h": base + 1, "f": f, "c": 0}, host])
+    return _WATCH
+
+
 def generate(rng, tier, i):
+    w0 = GRID_RUNS + REENTRY_RUNS + INDEP_RUNS
+    if w0 <= i < w0 + WATCH_RUNS:
+        cases = _watch_cases()
+        j = i - w0
+        mine = [c for n, c in enumerate(cases) if n % WATCH_RUNS == j]
+        return {"callers": 2, "watch": [j, WATCH_RUNS, len(cases)], "ops": copy.deepcopy([o for c in mine for o in c])}
     if GRID_RUNS + REENTRY_RUNS <= i < GRID_RUNS + REENTRY_RUNS + INDEP_RUNS:
         cases = _independence_cases()
         j = i - GRID_RUNS - REENTRY_RUNS
@@ -1463,7 +1511,7 @@ class C09Engine(Engine):
         reached = " ".join(list(CALLS) + list(FACTORIES) + list(DERIVES) + list(HCALLS)) + " " + " ".join(
             inspect.getsource(f) for f in (_model, _deduce, _cif_lowlevel, _from_nexus, _disk_chopper, _subframe, _source_pulse, _model_call, _model_params,
                                            _transmission, _plateaus, _components, _fit_small, _convert,
-                                           _remove_peaks_call, _xye_roundtrip, _cif_save, _block_write,
+                                           _remove_peaks_call, _xye_roundtrip, _cif_save, _cif_save_wrapper, _block_write,
                                            _use_graph, _call_model, _guess_model, _cyl, _material, _cif,
                                            _cif_block, _frameseq, _chopper))
         out = {}
@@ -1547,11 +1595,34 @@ class C09Engine(Engine):
                         points.setdefault(p["at"], p["op"])
                 ctx.fault_configured("preempt", len(points))
 
+                # the object a (logically read-only) method or combinator is called on is an
+                # argument too: it must look the same to any other caller at every instant of the call
+                hkey = op.get("src") if op["k"] == "derive" else (op.get("h") if op["k"] == "hcall" else None)
+                hobj = world.handles.get(hkey) if hkey is not None else None
+                hbefore = None
+                if hobj is not None:
+                    try:
+                        hbefore = canon.digest(hobj)
+                    except canon.Uncanonical:
+                        hbefore = None
+
+                def watch_handle(frame):
+                    if hbefore is None:
+                        return
+                    ctx.count("handle_watched_mid_call")
+                    if canon.digest(hobj) != hbefore:
+                        ctx.violate(
+                            "arg_modified",
+                            f"the object {op.get('f', op.get('m'))} is called on (handle {hkey}) looks different at a "
+                            f"pre-emption point inside the call ({frame.f_code.co_name}:{frame.f_lineno}) than before the call",
+                            kind="arg_modified_during_call", f=op.get("f", op.get("m")))
+
                 def mk(nop):
                     def cb(frame):
                         saved = ctx.caller
                         ctx.log("preempt", frame.f_code.co_name)
                         check_args("at a pre-emption point inside", op)
+                        watch_handle(frame)
                         run(nop, nested=True)
                         ctx.caller = saved
                     return cb
@@ -1609,6 +1680,8 @@ class C09Engine(Engine):
             ctx.count("factory_independence_cases", len(ops) // 5)
         if "reentry" in scn:
             ctx.count("reentrancy_sweep_cases", len(ops))
+        if "watch" in scn:
+            ctx.count("mid_call_watch_cases", len(ops) // 2)
         if "grid" in scn:
             ctx.count("aliasing_grid_cases", len(ops))
             ctx.probe("aliasing_grid_total_cases", 0)
